@@ -52,38 +52,57 @@ def install_table():
     return t
 
 
-CELL_TIMEOUT_S = 180
+CELL_WALL_S = 1800      # wall-clock fallback: only ever reported as undecided (exit 2), never as a verdict
 
 
-class CellTimeout(Exception):
-    pass
+class CellTimeout(BaseException):     # BaseException: neither the library's nor the harness' `except Exception` swallows it
+    def __init__(self, which="cpu", phase="library"):
+        super().__init__(which)
+        self.which = which
+        self.phase = phase          # phase at the moment the signal arrived (the wrappers' finally blocks change it while unwinding)
 
 
 def run_cell(cell: Dict[str, Any]) -> Dict[str, Any]:
     """run_cell with a watchdog: a library call that does not return within CELL_TIMEOUT_S is reported as a
     non-terminating call (clause 'call-terminates'), never left hanging."""
     import signal
+    from . import harness
 
     def on_alarm(signum, frame):
-        raise CellTimeout()
-    old = None
+        raise CellTimeout("wall", harness._STATE.get("phase", "library"))
+
+    def on_prof(signum, frame):
+        raise CellTimeout("cpu", harness._STATE.get("phase", "library"))
+    old = oldp = None
     try:
         old = signal.signal(signal.SIGALRM, on_alarm)
-        signal.alarm(CELL_TIMEOUT_S)
+        oldp = signal.signal(signal.SIGPROF, on_prof)
+        signal.alarm(CELL_WALL_S)
+        harness._STATE["watchdog"] = True      # the CPU-time budget is armed by the wrapper around each outermost library call
     except (ValueError, AttributeError):
-        old = None
+        old = oldp = None
     try:
         return _run_cell(cell)
-    except CellTimeout:
+    except CellTimeout as ex:
         a = cell.get("action", {})
-        return {"id": cell_id(cell), "cell": cell, "draws": [], "error": None, "raised": "timeout",
-                "clauses": [{"prop": "HANG", "clause": "call-terminates", "ok": False, "method": a.get("kind", "?"),
-                             "detail": f"the call did not return within {CELL_TIMEOUT_S} s (non-terminating loop in the library?)"}]}
+        phase = ex.phase
+        harness.set_world(None)
+        if ex.which == "cpu" and phase == "library":
+            cl = {"prop": "HANG", "clause": "call-terminates", "ok": False, "method": a.get("kind", "?"),
+                  "detail": f"the library call used more than {harness.LIB_CPU_S} CPU seconds without returning (non-terminating loop in the library?)"}
+        else:
+            cl = {"prop": "TIMEOUT", "clause": "cell-budget", "ok": False, "method": a.get("kind", "?"),
+                  "detail": f"budget exhausted ({ex.which}) while in phase '{phase}': undecided, not a verdict"}
+        return {"id": cell_id(cell), "cell": cell, "draws": [], "error": None, "raised": "timeout", "clauses": [cl]}
     finally:
         try:
             signal.alarm(0)
+            signal.setitimer(signal.ITIMER_PROF, 0)
+            harness._STATE["watchdog"] = False
             if old is not None:
                 signal.signal(signal.SIGALRM, old)
+            if oldp is not None:
+                signal.signal(signal.SIGPROF, oldp)
         except (ValueError, AttributeError):
             pass
 
